@@ -96,6 +96,60 @@ theorem i128DivModFloor_pos (prof : Profile) (x y : Int) (hx : fitsI128 x = true
     simp only [plainI128_ok prof f1, plainI128_ok prof f2, Outcome.bind_ok, Outcome.pure_eq]
     congr 2 <;> omega
 
+/-- `i128_div_mod_floor(x, y)` for a negative divisor: the floor quotient of `x / y = (-x) / (-y)`, the remainder has the sign
+    of the divisor -/
+theorem i128DivModFloor_neg (prof : Profile) (x y : Int) (hx : I128_MIN < x ∧ x ≤ I128_MAX) (hy0 : y < 0)
+    (hy : I128_MIN < y) : i128DivModFloor prof x y = .ok ((-x) / (-y), -((-x) % (-y))) := by
+  have hpos := i128DivModFloor_pos prof (-x) (-y) (by rw [fitsI128_iff]; unfold I128_MIN I128_MAX at *; omega) (by omega)
+    (by unfold I128_MIN I128_MAX at *; omega)
+  have e1 : x.tdiv y = (-x).tdiv (-y) := (Int.neg_tdiv_neg x y).symm
+  have e2 : x.tmod y = -((-x).tmod (-y)) := by rw [Int.tmod_neg, Int.neg_tmod, Int.neg_neg]
+  have hne : y ≠ 0 := by omega
+  have hne' : -y ≠ 0 := by omega
+  have hm1 : ¬ (x = I128_MIN ∧ y = -1) := by omega
+  have hm1' : ¬ (-x = I128_MIN ∧ -y = -1) := by unfold I128_MIN at *; omega
+  unfold i128DivModFloor divI128 remI128 at hpos ⊢
+  simp only [hne, hne', if_false, hm1, hm1', Outcome.bind_ok] at hpos ⊢
+  rw [e1, e2]
+  have hb1 := Int.tmod_lt_of_pos (-x) (show 0 < -y by omega)
+  have hb2 := Int.lt_tmod_of_pos (-x) (show 0 < -y by omega)
+  generalize (-x).tdiv (-y) = q0 at hpos ⊢
+  generalize (-x).tmod (-y) = r0 at hpos hb1 hb2 ⊢
+  by_cases hc : (r0 > 0 ∧ -y < 0) ∨ (r0 < 0 ∧ -y > 0)
+  · have hc' : (-r0 > 0 ∧ y < 0) ∨ (-r0 < 0 ∧ y > 0) := by omega
+    simp only [hc, hc', if_true] at hpos ⊢
+    cases hq : plainI128 prof (q0 - 1) with
+    | panic k => rw [hq] at hpos; simp [Outcome.bind_panic] at hpos
+    | ok q1 =>
+      rw [hq] at hpos
+      simp only [Outcome.bind_ok] at hpos ⊢
+      cases hr : plainI128 prof (r0 + -y) with
+      | panic k => rw [hr] at hpos; simp [Outcome.bind_panic] at hpos
+      | ok r1 =>
+        rw [hr] at hpos
+        simp only [Outcome.bind_ok, Outcome.pure_eq] at hpos
+        injection hpos with hpos
+        injection hpos with hq1 hr1
+        -- r1 = r0 - y is the positive-divisor remainder; its negation fits
+        have hr1v : r1 = r0 + -y := by
+          unfold plainI128 at hr
+          by_cases hf : fitsI128 (r0 + -y) = true
+          · simp [hf] at hr; exact hr.symm
+          · exfalso
+            rw [fitsI128_iff] at hf; unfold I128_MIN I128_MAX at *
+            omega
+        have hfit : fitsI128 (-r0 + y) = true := by
+          rw [fitsI128_iff]; unfold I128_MIN I128_MAX at *; omega
+        rw [plainI128_ok prof hfit]
+        simp only [Outcome.bind_ok, Outcome.pure_eq]
+        congr 2
+        · omega
+  · have hc' : ¬ ((-r0 > 0 ∧ y < 0) ∨ (-r0 < 0 ∧ y > 0)) := by omega
+    simp only [hc, hc', if_false, Outcome.pure_eq] at hpos ⊢
+    injection hpos with hpos
+    injection hpos with hq1 hr1
+    rw [hq1, hr1]
+
 theorem roundQuot_none (tm : Mode) (q : Int) (r d : Nat) :
     roundQuot tm q r d none = roundQuot tm q r d (some tm) := by
   unfold roundQuot; rfl
@@ -142,11 +196,11 @@ theorem specRound_fits (m : Mode) (n d : Int) (hn : I128_MIN ≤ n ∧ n ≤ I12
       · have := Int.ediv_neg_of_neg_of_pos (show n < 0 by omega) hd; omega
     cases m <;> simp only [] <;> (repeat' split) <;> omega
 
-/-- the part of `i128_div_rounded` after the sign normalisation (divisor positive) -/
+/-- `i128_div_rounded` for a positive divisor -/
 theorem divRoundedTail (prof : Profile) (tm : Mode) (mode : Option Mode) (n d : Int)
     (hn : I128_MIN ≤ n ∧ n ≤ I128_MAX) (hd : 0 < d) (hdu : d ≤ I128_MAX) :
     (do let (quot, rem) ← i128DivModFloor prof n d
-        match roundQuot tm quot (IntTy.u128.cast rem).toNat (IntTy.u128.cast d).toNat mode with
+        match roundQuot tm quot rem.natAbs d.natAbs mode with
         | some q => pure q
         | none => Outcome.panic PanicKind.unwrap) = Outcome.ok (Spec.specRound (mode.getD tm) n d) := by
   have hnf : fitsI128 n = true := by rw [fitsI128_iff]; omega
@@ -154,7 +208,9 @@ theorem divRoundedTail (prof : Profile) (tm : Mode) (mode : Option Mode) (n d : 
   have h2 := Int.emod_lt_of_pos n hd
   rw [i128DivModFloor_pos prof n d hnf hd hdu]
   simp only [Outcome.bind_ok]
-  rw [cast_u128_nonneg h1 (by omega), cast_u128_nonneg (Int.le_of_lt hd) hdu]
+  have ea : (n % d).natAbs = (n % d).toNat := by omega
+  have eb : d.natAbs = d.toNat := by omega
+  rw [ea, eb]
   have hsf := specRound_fits (mode.getD tm) n d hn hd
   have hqf : fitsI128 (n / d) = true := by
     have h3 := Int.mul_ediv_add_emod n d
@@ -182,23 +238,31 @@ theorem i128DivRounded_pos (prof : Profile) (tm : Mode) (mode : Option Mode) (n 
     i128DivRounded prof tm n d mode = .ok (Spec.specRound (mode.getD tm) n d) := by
   rw [fitsI128_iff] at hn
   unfold i128DivRounded
-  have hneg : ¬ d < 0 := by omega
-  simp only [hneg, if_false, Outcome.pure_eq, Outcome.bind_ok]
   exact divRoundedTail prof tm mode n d hn hd hdu
 
 /-- `i128_div_rounded(n, d, mode)` is the spec rounding of `n/d` for every non-zero divisor, every mode,
-    every profile; it never panics on in-range operands -/
+    every profile; it never panics on in-range operands (after the D13 repair no operand is negated: the floor division by the
+    signed divisor leaves a remainder with the divisor's sign, and `|rem| / |divisor|` is the fraction cut off) -/
 theorem i128DivRounded_spec (prof : Profile) (tm : Mode) (mode : Option Mode) (n d : Int)
     (hn : I128_MIN < n ∧ n ≤ I128_MAX) (hd : I128_MIN < d ∧ d ≤ I128_MAX) (hd0 : d ≠ 0) :
     i128DivRounded prof tm n d mode = .ok (Spec.specRoundQ (mode.getD tm) n d) := by
-  unfold i128DivRounded Spec.specRoundQ
-  unfold I128_MIN I128_MAX at hn hd
+  unfold Spec.specRoundQ
   by_cases hneg : d < 0
-  · have f1 : fitsI128 (-n) = true := by rw [fitsI128_iff]; unfold I128_MIN I128_MAX; omega
-    have f2 : fitsI128 (-d) = true := by rw [fitsI128_iff]; unfold I128_MIN I128_MAX; omega
-    simp only [hneg, if_true, negI128, plainI128_ok prof f1, plainI128_ok prof f2, Outcome.bind_ok, Outcome.pure_eq]
-    exact divRoundedTail prof tm mode (-n) (-d) (by unfold I128_MIN I128_MAX; omega) (by omega) (by unfold I128_MAX; omega)
-  · simp only [hneg, if_false, Outcome.pure_eq, Outcome.bind_ok]
-    exact divRoundedTail prof tm mode n d (by unfold I128_MIN I128_MAX; omega) (by omega) (by unfold I128_MAX; omega)
+  · rw [if_pos hneg]
+    unfold i128DivRounded
+    rw [i128DivModFloor_neg prof n d hn hneg hd.1]
+    simp only [Outcome.bind_ok]
+    have hpos := divRoundedTail prof tm mode (-n) (-d) (by unfold I128_MIN I128_MAX at *; omega) (by omega)
+      (by unfold I128_MIN I128_MAX at *; omega)
+    rw [i128DivModFloor_pos prof (-n) (-d) (by rw [fitsI128_iff]; unfold I128_MIN I128_MAX at *; omega) (by omega)
+      (by unfold I128_MIN I128_MAX at *; omega)] at hpos
+    simp only [Outcome.bind_ok] at hpos
+    have ea : (-(-n % -d)).natAbs = (-n % -d).natAbs := Int.natAbs_neg _
+    have eb : d.natAbs = (-d).natAbs := (Int.natAbs_neg d).symm
+    rw [ea, eb]
+    exact hpos
+  · rw [if_neg hneg]
+    unfold i128DivRounded
+    exact divRoundedTail prof tm mode n d (by unfold I128_MIN I128_MAX at *; omega) (by omega) (by unfold I128_MAX at *; omega)
 
 end Fpdec
